@@ -1144,6 +1144,202 @@ theorem generateMesh_ownEdgesP (m : Mesh) (ne : Nat) (hK : KeysP m) (hE : OwnEdg
     OwnEdgesP (m.generateMesh ne false).mesh := by
   exact gm_ownEdgesP m _ _ _ (fun c => c.filter fun p => !p.2.verts.isEmpty) hK hE
 
+/-! ### orphanRemoval -/
+
+theorem mem_cyclicPairs {α : Type} {l : List α} {ab : α × α} (h : ab ∈ cyclicPairs l) :
+    ab.1 ∈ l ∧ ab.2 ∈ l := by
+  cases l with
+  | nil => simp [cyclicPairs] at h
+  | cons a t =>
+    simp only [cyclicPairs] at h
+    obtain ⟨x, y⟩ := ab
+    have := List.of_mem_zip h
+    refine ⟨this.1, ?_⟩
+    have h2 := this.2
+    simp only [List.mem_append, List.mem_singleton] at h2
+    rcases h2 with h2 | h2
+    · exact List.mem_cons_of_mem _ h2
+    · simp [h2]
+
+theorem mem_filter_keys {β : Type} (l : List (Id × β)) (i k : Id) :
+    k ∈ (l.filter fun p => p.1 != i).map (·.1) ↔ k ∈ l.map (·.1) ∧ k ≠ i := by
+  simp only [List.mem_map, List.mem_filter, bne_iff_ne, ne_eq]
+  constructor
+  · rintro ⟨p, ⟨hp, hne⟩, rfl⟩; exact ⟨⟨p, hp, rfl⟩, hne⟩
+  · rintro ⟨⟨p, hp, rfl⟩, hne⟩; exact ⟨p, ⟨hp, hne⟩, rfl⟩
+
+def delEdges (m : Mesh) (es : List Id) : Mesh := es.foldl (fun m e => m.delEdge e) m
+
+theorem delEdges_cells (m : Mesh) (es : List Id) : (delEdges m es).cells = m.cells := by
+  unfold delEdges
+  apply foldl_inv (fun m' => m'.cells = m.cells)
+  · intro m' e _ h; rw [delEdge_cells]; exact h
+  · rfl
+
+theorem delEdges_vkeys (m : Mesh) (es : List Id) :
+    (delEdges m es).vertices.map (·.1) = m.vertices.map (·.1) := by
+  unfold delEdges
+  apply foldl_inv (fun m' => m'.vertices.map (·.1) = m.vertices.map (·.1))
+  · intro m' e _ h; rw [delEdge_vkeys]; exact h
+  · rfl
+
+theorem delEdges_edges (m : Mesh) (es : List Id) (q : Id × SEdge) :
+    q ∈ (delEdges m es).edges ↔ q ∈ m.edges ∧ q.1 ∉ es := by
+  unfold delEdges
+  induction es generalizing m with
+  | nil => simp
+  | cons e es ih =>
+    simp only [List.foldl_cons, ih, delEdge_edges, List.mem_filter, bne_iff_ne, ne_eq, List.mem_cons,
+      not_or, and_assoc]
+
+theorem delEdges_sim (m : Mesh) (es : List Id) : ∀ p' ∈ (delEdges m es).vertices, ∃ p ∈ m.vertices,
+    p'.1 = p.1 ∧ p'.2.id = p.2.id ∧ p'.2.ownCells = p.2.ownCells := by
+  unfold delEdges
+  apply foldl_inv (fun m' => ∀ p' ∈ m'.vertices, ∃ p ∈ m.vertices,
+    p'.1 = p.1 ∧ p'.2.id = p.2.id ∧ p'.2.ownCells = p.2.ownCells)
+  · intro m' e _ h p'' hp''
+    obtain ⟨p', hp', a1, a2, a3, _⟩ := delEdge_sim m' e p'' hp''
+    obtain ⟨p, hp, b1, b2, b3⟩ := h p' hp'
+    exact ⟨p, hp, a1.trans b1, a2.trans b2, a3.trans b3⟩
+  · intro p hp; exact ⟨p, hp, rfl, rfl, rfl⟩
+
+theorem delEdges_keys_own (m : Mesh) (es : List Id) (hK : KeysP m) (hE : OwnEdgesP m) :
+    KeysP (delEdges m es) ∧ OwnEdgesP (delEdges m es) := by
+  unfold delEdges
+  apply foldl_inv (fun m' => KeysP m' ∧ OwnEdgesP m')
+  · intro m' e _ ⟨h1, h2⟩
+    exact ⟨delEdge_keysP m' e h1, delEdge_ownEdgesP m' e h1.1 h1.2.1 h2⟩
+  · exact ⟨hK, hE⟩
+
+def orphanStep (m : Mesh) (i : Id) : Mesh :=
+  let m := (m.ownEdges i).foldl (fun m e => m.delEdge e) m
+  { m with vertices := m.vertices.filter fun p => p.1 != i }
+
+theorem orphanStep_consP (m : Mesh) (i : Id) (h : ConsP m)
+    (hi : ∀ p ∈ m.vertices, p.1 = i → p.2.ownCells = []) :
+    ConsP (orphanStep m i) ∧ (∀ p' ∈ (orphanStep m i).vertices, ∃ p ∈ m.vertices,
+      p'.1 = p.1 ∧ p'.2.ownCells = p.2.ownCells) := by
+  obtain ⟨hK, hE, hC, hR, hN, hJ⟩ := h
+  have hvert : ∀ k ∈ m.vertices.map (·.1), ∃ v, (k, v) ∈ m.vertices ∧ v.id = k ∧ m.ownEdges k = v.ownEdges := by
+    intro k hk
+    obtain ⟨p, hp, rfl⟩ := List.mem_map.mp hk
+    refine ⟨p.2, hp, (hK.1 p hp).symm, ?_⟩
+    have : alGet? p.1 m.vertices = some p.2 := alGet?_of_mem hK.2.2.2.1 hp
+    simp [ownEdges, vertex?, this]
+  have K1 : ∀ q ∈ m.edges, (q.2.v1 = i ∨ q.2.v2 = i) → i ∈ m.vertices.map (·.1) → q.1 ∈ m.ownEdges i := by
+    intro q hq hends hiv
+    obtain ⟨v, hv, hvid, hown⟩ := hvert i hiv
+    rw [hown, hK.2.1 q hq]
+    exact (hE (i, v) hv).2.1 q hq (by simpa [hvid] using hends)
+  have K2 : ∀ q ∈ m.edges, q.1 ∈ m.ownEdges i → (q.2.v1 = i ∨ q.2.v2 = i) := by
+    intro q hq hmem
+    by_cases hiv : i ∈ m.vertices.map (·.1)
+    · obtain ⟨v, hv, hvid, hown⟩ := hvert i hiv
+      rw [hown] at hmem
+      obtain ⟨ed, hed, hends⟩ := (hE (i, v) hv).1 q.1 hmem
+      have : alGet? q.1 m.edges = some q.2 := alGet?_of_mem hK.2.2.2.2.1 hq
+      rw [this] at hed
+      have := Option.some.inj hed
+      subst this
+      simpa [hvid] using hends
+    · have : alGet? i m.vertices = none := (alGet?_eq_none_iff _ _).mpr hiv
+      simp [ownEdges, vertex?, this] at hmem
+  have K3 : ∀ c ∈ m.cells, i ∉ c.2.verts := by
+    intro c hc hin
+    have hiv := (hR.2 c hc).2 i hin
+    obtain ⟨v, hv, hvid, _⟩ := hvert i hiv
+    have := (hC (i, v) hv).2.1 c hc (by simpa [hvid] using hin)
+    rw [hi (i, v) hv rfl] at this
+    simp at this
+  have hm2 : orphanStep m i = { delEdges m (m.ownEdges i) with
+      vertices := (delEdges m (m.ownEdges i)).vertices.filter fun p => p.1 != i } := rfl
+  obtain ⟨hK2, hE2⟩ := delEdges_keys_own m (m.ownEdges i) hK hE
+  have hcells := delEdges_cells m (m.ownEdges i)
+  have hvk := delEdges_vkeys m (m.ownEdges i)
+  have hsim := delEdges_sim m (m.ownEdges i)
+  have hC2 : OwnCellsP (delEdges m (m.ownEdges i)) :=
+    OwnCellsP_of_sim m _ hcells (fun p' hp' => by
+      obtain ⟨p, hp, _, a, b⟩ := hsim p' hp'; exact ⟨p, hp, a, b⟩) hC
+  rw [hm2]
+  refine ⟨⟨?_, ?_, ?_, ?_, ?_, ?_⟩, ?_⟩
+  · obtain ⟨k1, k2, k3, k4, k5, k6⟩ := hK2
+    refine ⟨?_, k2, k3, ?_, k5, k6⟩
+    · intro p hp; exact k1 p (List.mem_filter.mp hp).1
+    · exact k4.sublist (List.filter_sublist.map _)
+  · exact OwnEdgesP_of_sim (delEdges m (m.ownEdges i)) _ rfl (fun p' hp' => ⟨p', (List.mem_filter.mp hp').1, rfl, rfl⟩) hE2
+  · exact OwnCellsP_of_sim (delEdges m (m.ownEdges i)) _ rfl (fun p' hp' => ⟨p', (List.mem_filter.mp hp').1, rfl, rfl⟩) hC2
+  · refine ⟨?_, ?_⟩
+    · intro q hq
+      simp only at hq
+      rw [delEdges_edges] at hq
+      obtain ⟨r0, r1, r2⟩ := hR.1 q hq.1
+      simp only [mem_filter_keys, hvk]
+      refine ⟨r0, ⟨r1, ?_⟩, ⟨r2, ?_⟩⟩
+      · intro h1; exact hq.2 (K1 q hq.1 (Or.inl h1) (h1 ▸ r1))
+      · intro h2; exact hq.2 (K1 q hq.1 (Or.inr h2) (h2 ▸ r2))
+    · intro c hc
+      simp only at hc
+      rw [hcells] at hc
+      obtain ⟨r0, r1⟩ := hR.2 c hc
+      refine ⟨r0, ?_⟩
+      intro v hv
+      simp only [mem_filter_keys, hvk]
+      exact ⟨r1 v hv, fun hvi => K3 c hc (hvi ▸ hv)⟩
+  · intro c hc
+    simp only at hc
+    rw [hcells] at hc
+    exact hN c hc
+  · intro c hc ab hab
+    simp only at hc
+    rw [hcells] at hc
+    obtain ⟨q, hq, hh⟩ := hJ c hc ab hab
+    refine ⟨q, ?_, hh⟩
+    simp only
+    rw [delEdges_edges]
+    refine ⟨hq, ?_⟩
+    intro hmem
+    have hends := K2 q hq hmem
+    obtain ⟨m1, m2⟩ := mem_cyclicPairs hab
+    have : ab.1 = i ∨ ab.2 = i := by
+      rcases hh with ⟨a, b⟩ | ⟨a, b⟩ <;> rcases hends with e | e
+      · left; rw [← a, e]
+      · right; rw [← b, e]
+      · right; rw [← a, e]
+      · left; rw [← b, e]
+    rcases this with e | e
+    · exact K3 c hc (e ▸ m1)
+    · exact K3 c hc (e ▸ m2)
+  · intro p' hp'
+    simp only at hp'
+    obtain ⟨p, hp, a, _, b⟩ := hsim p' (List.mem_filter.mp hp').1
+    exact ⟨p, hp, a, b⟩
+
+theorem orphanRemoval_consP (m : Mesh) (h : ConsP m) : ConsP m.orphanRemoval := by
+  have heq : m.orphanRemoval =
+      ((m.vertices.filter fun p => p.2.ownCells.isEmpty).map (·.1)).foldl orphanStep m := rfl
+  rw [heq]
+  have hinit : ∀ p ∈ m.vertices, p.1 ∈ (m.vertices.filter fun p => p.2.ownCells.isEmpty).map (·.1) →
+      p.2.ownCells = [] := by
+    intro p hp hmem
+    obtain ⟨p0, hp0, hk⟩ := List.mem_map.mp hmem
+    obtain ⟨hp0m, hemp⟩ := List.mem_filter.mp hp0
+    have e1 : alGet? p.1 m.vertices = some p.2 := alGet?_of_mem h.1.2.2.2.1 hp
+    have e2 : alGet? p0.1 m.vertices = some p0.2 := alGet?_of_mem h.1.2.2.2.1 hp0m
+    rw [hk, e1] at e2
+    have := Option.some.inj e2
+    rw [this]
+    simpa using hemp
+  refine (foldl_inv (fun m' => ConsP m' ∧ ∀ p ∈ m'.vertices,
+      p.1 ∈ (m.vertices.filter fun p => p.2.ownCells.isEmpty).map (·.1) → p.2.ownCells = [])
+    orphanStep _ ?_ m ⟨h, hinit⟩).1
+  intro m' i hi ⟨c1, c2⟩
+  obtain ⟨d1, d2⟩ := orphanStep_consP m' i c1 (fun p hp hpi => c2 p hp (hpi ▸ hi))
+  refine ⟨d1, ?_⟩
+  intro p' hp' hmem
+  obtain ⟨p, hp, a, b⟩ := d2 p' hp'
+  rw [b]
+  exact c2 p hp (a ▸ hmem)
+
 end Mesh
 
 end Forsys
